@@ -83,6 +83,7 @@ public:
 
   Iterator find(const T& key) const
   {
+    Item* result = _end.item;
     for(Item* item = root; item; )
     {
       if(key > item->key)
@@ -96,9 +97,12 @@ public:
         continue;
       }
       else
-        return item;
+      { // items with the same key may precede this one, they are in its left subtree
+        result = item;
+        item = item->left;
+      }
     }
-    return _end;
+    return result;
   }
 
   bool contains(const T& key) const {return find(key) != _end;}
